@@ -1,8 +1,394 @@
-From Coq Require Import List Arith ZArith Bool Lia.
+(* C07 — proofs about the SourceCatalog row model (C07_Model).
+
+   Layout
+     1. list / sum toolbox
+     2. the "definition" of a row: [build], computed from whole-image pixel SETS (the list
+        [L] of pixels carrying the label in row-major order, the unmasked finite ones
+        [g_S]) and pointwise array reads — no cutout, no bounding-box slicing, no total mask
+     3. [mkrow_is_build]: the code-mirroring model (cutouts on the tight box, total mask,
+        zeroed moment cutout) computes exactly that
+     4. consequences: locality, relabelling, all-masked -> NaN, shift, transposition
+     5. extrema, central moments, regularisation loop, label order *)
+From Coq Require Import List Arith ZArith Bool Lia Permutation.
 From PV Require Import lib.Cases C07_Model.
 Import ListNotations.
 
-Lemma rows_map ny nx own det labels :
-  catalog_rows ny nx own det labels =
-  map (mkrow ny nx own (match det with None => own | Some d => d end)) labels.
+(* ------------------------------------------------------------------ *)
+(* 1. toolbox                                                          *)
+(* ------------------------------------------------------------------ *)
+Lemma filter_nil_all {A} (f : A -> bool) l :
+  (forall x, In x l -> f x = false) -> filter f l = [].
+Proof.
+  induction l as [|a l IH]; intros H; [reflexivity|].
+  cbn. rewrite (H a (or_introl eq_refl)). apply IH. intros x Hx. apply H. right; exact Hx.
+Qed.
+
+Lemma filter_flat_map {A B} (f : B -> bool) (g : A -> list B) l :
+  filter f (flat_map g l) = flat_map (fun a => filter f (g a)) l.
+Proof.
+  induction l as [|a l IH]; [reflexivity|]. cbn. rewrite filter_app, IH. reflexivity.
+Qed.
+
+Lemma filter_map_comm {A B} (f : B -> bool) (g : A -> B) l :
+  filter f (map g l) = map g (filter (fun a => f (g a)) l).
+Proof.
+  induction l as [|a l IH]; [reflexivity|]. cbn. destruct (f (g a)); cbn; rewrite IH; reflexivity.
+Qed.
+
+Lemma filter_filter {A} (f g : A -> bool) l :
+  filter f (filter g l) = filter (fun x => g x && f x) l.
+Proof.
+  induction l as [|a l IH]; [reflexivity|]. cbn. destruct (g a); cbn; [destruct (f a)|]; rewrite IH; reflexivity.
+Qed.
+
+Lemma flat_map_nil_all {A B} (g : A -> list B) l :
+  (forall a, In a l -> g a = []) -> flat_map g l = [].
+Proof.
+  induction l as [|a l IH]; intros H; [reflexivity|].
+  cbn. rewrite (H a (or_introl eq_refl)). apply IH. intros x Hx. apply H. right; exact Hx.
+Qed.
+
+Lemma seq_split3 a b n : a <= b -> b <= n ->
+  seq 0 n = seq 0 a ++ seq a (b - a) ++ seq b (n - b).
+Proof.
+  intros Hab Hbn.
+  replace n with (a + ((b - a) + (n - b))) at 1 by lia.
+  rewrite seq_app, seq_app. cbn [plus]. replace (a + (b - a)) with b by lia. reflexivity.
+Qed.
+
+Lemma flat_map_seq_restrict {B} (F : nat -> list B) a b n : a <= b -> b <= n ->
+  (forall i, i < a \/ b <= i -> F i = []) ->
+  flat_map F (seq 0 n) = flat_map F (seq a (b - a)).
+Proof.
+  intros Hab Hbn HF. rewrite (seq_split3 a b n Hab Hbn), !flat_map_app.
+  rewrite (flat_map_nil_all F (seq 0 a)), (flat_map_nil_all F (seq b (n - b))).
+  - rewrite app_nil_r. reflexivity.
+  - intros i Hi. apply in_seq in Hi. apply HF. lia.
+  - intros i Hi. apply in_seq in Hi. apply HF. lia.
+Qed.
+
+Lemma filter_seq_restrict (g : nat -> bool) a b n : a <= b -> b <= n ->
+  (forall i, i < a \/ b <= i -> g i = false) ->
+  filter g (seq 0 n) = filter g (seq a (b - a)).
+Proof.
+  intros Hab Hbn Hg. rewrite (seq_split3 a b n Hab Hbn), !filter_app.
+  rewrite (filter_nil_all g (seq 0 a)), (filter_nil_all g (seq b (n - b))).
+  - rewrite app_nil_r. reflexivity.
+  - intros i Hi. apply in_seq in Hi. apply Hg. lia.
+  - intros i Hi. apply in_seq in Hi. apply Hg. lia.
+Qed.
+
+Lemma in_coords_box y0 h x0 w p :
+  In p (coords_box y0 h x0 w) <-> y0 <= fst p < y0 + h /\ x0 <= snd p < x0 + w.
+Proof.
+  unfold coords_box. rewrite in_flat_map. split.
+  - intros (y & Hy & Hp). apply in_map_iff in Hp. destruct Hp as (x & <- & Hx).
+    apply in_seq in Hy. apply in_seq in Hx. cbn. lia.
+  - intros [Hy Hx]. exists (fst p). split; [apply in_seq; lia|].
+    apply in_map_iff. exists (snd p). split; [destruct p; reflexivity|apply in_seq; lia].
+Qed.
+
+(* a predicate that is false outside a sub-box selects the same pixels, in the same
+   (row-major) order, from the whole grid and from the sub-box *)
+Lemma filter_box_restrict (f : pix -> bool) ny nx y0 y1 x0 x1 :
+  y0 <= y1 -> y1 <= ny -> x0 <= x1 -> x1 <= nx ->
+  (forall p, f p = true -> y0 <= fst p < y1 /\ x0 <= snd p < x1) ->
+  filter f (coords_box 0 ny 0 nx) = filter f (coords_box y0 (y1 - y0) x0 (x1 - x0)).
+Proof.
+  intros Hy Hyn Hx Hxn Hf. unfold coords_box. rewrite !filter_flat_map.
+  assert (Hfalse : forall y x, (y < y0 \/ y1 <= y) \/ (x < x0 \/ x1 <= x) -> f (y, x) = false).
+  { intros y x Hout. destruct (f (y, x)) eqn:E; [|reflexivity].
+    apply Hf in E. cbn in E. lia. }
+  rewrite (flat_map_seq_restrict _ y0 y1 ny Hy Hyn).
+  - apply flat_map_ext. intros y. rewrite !filter_map_comm. f_equal.
+    apply filter_seq_restrict; [exact Hx|exact Hxn|]. intros x Hout. apply Hfalse. right; exact Hout.
+  - intros y Hout. apply filter_nil_all. intros p Hp. apply in_map_iff in Hp.
+    destruct Hp as (x & <- & _). apply Hfalse. left; exact Hout.
+Qed.
+
+Lemma minl_cons d a l : minl d (a :: l) = Nat.min a (minl d l).
 Proof. reflexivity. Qed.
+Lemma maxl_cons a l : maxl (a :: l) = Nat.max a (maxl l).
+Proof. reflexivity. Qed.
+Lemma minl_le d l y : In y l -> minl d l <= y.
+Proof.
+  induction l as [|a l IH]; intros H; [destruct H|]. rewrite minl_cons. destruct H as [->|H]; [lia|].
+  specialize (IH H). lia.
+Qed.
+Lemma minl_le_default d l : minl d l <= d.
+Proof. induction l as [|a l IH]; [cbn; lia|]. rewrite minl_cons. lia. Qed.
+Lemma maxl_ge l y : In y l -> y <= maxl l.
+Proof.
+  induction l as [|a l IH]; intros H; [destruct H|]. rewrite maxl_cons. destruct H as [->|H]; [lia|].
+  specialize (IH H). lia.
+Qed.
+Lemma maxl_bound l n : (forall y, In y l -> y <= n) -> maxl l <= n.
+Proof.
+  induction l as [|a l IH]; intros H; [cbn; lia|]. rewrite maxl_cons.
+  assert (a <= n) by (apply H; left; reflexivity).
+  assert (maxl l <= n) by (apply IH; intros y Hy; apply H; right; exact Hy). lia.
+Qed.
+Lemma minl_attained d l : l <> [] -> (forall y, In y l -> y <= d) -> In (minl d l) l.
+Proof.
+  induction l as [|a l IH]; intros Hne Hb; [congruence|]. rewrite minl_cons.
+  destruct l as [|b l'].
+  - cbn. left. assert (a <= d) by (apply Hb; left; reflexivity). lia.
+  - assert (IH' : In (minl d (b :: l')) (b :: l')).
+    { apply IH; [discriminate|]. intros y Hy. apply Hb. right; exact Hy. }
+    destruct (Nat.le_ge_cases a (minl d (b :: l'))) as [H|H].
+    + left. lia.
+    + right. replace (Nat.min a (minl d (b :: l'))) with (minl d (b :: l')) by lia. exact IH'.
+Qed.
+Lemma maxl_attained l : l <> [] -> In (maxl l) l.
+Proof.
+  induction l as [|a l IH]; intros Hne; [congruence|]. rewrite maxl_cons.
+  destruct l as [|b l'].
+  - cbn. left. lia.
+  - assert (IH' : In (maxl (b :: l')) (b :: l')) by (apply IH; discriminate).
+    destruct (Nat.le_ge_cases (maxl (b :: l')) a) as [H|H].
+    + left. lia.
+    + right. replace (Nat.max a (maxl (b :: l'))) with (maxl (b :: l')) by lia. exact IH'.
+Qed.
+
+(* sums *)
+Lemma zsum_cons x l : zsum (x :: l) = (x + zsum l)%Z.
+Proof. reflexivity. Qed.
+Lemma zsum_app a b : zsum (a ++ b) = (zsum a + zsum b)%Z.
+Proof.
+  induction a as [|x a IH]; [reflexivity|]. rewrite <- app_comm_cons, !zsum_cons, IH. ring.
+Qed.
+
+Lemma zsum_map_filter_zero {A} (t : A -> Z) (f : A -> bool) l :
+  (forall x, In x l -> f x = false -> t x = 0%Z) ->
+  zsum (map t l) = zsum (map t (filter f l)).
+Proof.
+  induction l as [|a l IH]; intros H; [reflexivity|].
+  assert (IH' : zsum (map t l) = zsum (map t (filter f l))).
+  { apply IH. intros x Hx. apply H. right; exact Hx. }
+  cbn [map filter]. destruct (f a) eqn:E; cbn [map]; rewrite ?zsum_cons, IH'; [reflexivity|].
+  rewrite (H a (or_introl eq_refl) E). reflexivity.
+Qed.
+
+Lemma zsum_perm l l' : Permutation l l' -> zsum l = zsum l'.
+Proof. induction 1; rewrite ?zsum_cons in *; lia. Qed.
+
+Lemma isnil_length {A} (l : list A) : isnil l = (length l =? 0).
+Proof. destruct l; reflexivity. Qed.
+Lemma isnil_map {A B} (f : A -> B) l : isnil (map f l) = isnil l.
+Proof. destruct l; reflexivity. Qed.
+Lemma isnil_true {A} (l : list A) : isnil l = true <-> l = [].
+Proof. destruct l; cbn; split; congruence. Qed.
+
+(* ------------------------------------------------------------------ *)
+(* 2. the definition of a row on whole-image pixel sets                *)
+(* ------------------------------------------------------------------ *)
+(* unmasked and finite *)
+Definition g_good (dat : pix -> option Z) (msk : pix -> bool) (p : pix) : bool :=
+  negb (msk p) && negb (nonfinite (dat p)).
+(* S_l = the pixels of L (those carrying the label) that are unmasked and finite *)
+Definition g_S (L : list pix) dat msk : list pix := filter (g_good dat msk) L.
+(* the clipped convolved value that enters the moments *)
+Definition g_mv (cnv : pix -> option Z) (msk : pix -> bool) (p : pix) : Z :=
+  match cnv p with None => 0 | Some v => if (v <? 0) || msk p then 0 else v end%Z.
+
+Section Build.
+Variables (l : Z) (ny nx : nat) (L Sd : list pix) (mv : pix -> Z).
+Variables (So : list pix) (oy ox : nat) (dat err bkg : pix -> option Z) (he hb : bool).
+
+Definition b_y0 := minl ny (map fst L).
+Definition b_y1 := maxl (map S (map fst L)).
+Definition b_x0 := minl nx (map snd L).
+Definition b_x1 := maxl (map S (map snd L)).
+Definition b_rel (p : pix) : Z * Z :=
+  (Z.of_nat (fst p) - Z.of_nat b_y0, Z.of_nat (snd p) - Z.of_nat b_x0)%Z.
+Definition b_moment (a b : nat) : Z :=
+  zsum (map (fun p => zpow (fst (b_rel p)) a * mv p * zpow (snd (b_rel p)) b)%Z L).
+Definition b_moments : list (list Z) :=
+  map (fun a => map (fun b => b_moment a b) [0; 1; 2; 3]) [0; 1; 2; 3].
+Definition b_m00 := b_moment 0 0.
+Definition b_ccen : option ((Z * Z) * (Z * Z)) :=
+  if (b_m00 =? 0)%Z then None else Some ((b_moment 0 1, b_m00), (b_moment 1 0, b_m00)).
+Definition b_cen : option ((Z * Z) * (Z * Z)) :=
+  match b_ccen with
+  | None => None
+  | Some ((xn, d), (yn, _)) => Some ((xn + Z.of_nat b_x0 * d, d), (yn + Z.of_nat b_y0 * d, d))%Z
+  end.
+Definition b_covnum : Z * Z * Z :=
+  (b_moment 0 2 * b_m00 - b_moment 0 1 * b_moment 0 1,
+   b_moment 1 1 * b_m00 - b_moment 1 0 * b_moment 0 1,
+   b_moment 2 0 * b_m00 - b_moment 1 0 * b_moment 1 0)%Z.
+Definition b_cov : option (Z * Z * Z) :=
+  if (b_m00 =? 0)%Z then None
+  else let '(a, b, c) := b_covnum in regularise reg_fuel (b_m00 * b_m00) (12 * a) (12 * b) (12 * c)%Z.
+Definition b_covden : Z := (12 * b_m00 * b_m00)%Z.
+Definition b_margin : bool :=
+  let '(a, b, c) := b_covnum in
+  let d2 := (b_m00 * b_m00)%Z in
+  (d2 * d2 <? Z.abs (144 * (a * c - b * b) - d2 * d2) * 2 ^ 30)%Z.
+
+Definition o_area (S : list pix) : option Z := if isnil S then None else Some (Z.of_nat (length S)).
+Definition b_flux : option Z := if isnil So then None else Some (zsum (map (fun p => valz (dat p)) So)).
+Definition b_fluxerr2 : option Z :=
+  if he then (if isnil So then None else osum (map (fun p => sq (err p)) So)) else None.
+Definition b_bkgsum : option Z :=
+  if hb then (if isnil So then None else osum (map bkg So)) else None.
+Definition b_bkgmean : option (Z * Z) :=
+  match b_bkgsum with Some s => Some (s, Z.of_nat (length So)) | None => None end.
+Definition b_tagged : list (pix * Z) := map (fun p => (p, valz (dat p))) So.
+Definition b_argmin := arg_ext Z.ltb b_tagged.
+Definition b_argmax := arg_ext Z.gtb b_tagged.
+Definition o_rel (p : pix) : Z * Z := (Z.of_nat (fst p) - Z.of_nat oy, Z.of_nat (snd p) - Z.of_nat ox)%Z.
+Definition o_add (i : Z * Z) : Z * Z := (fst i + Z.of_nat oy, snd i + Z.of_nat ox)%Z.
+
+Definition build : row := {|
+  r_label := l;
+  r_bbox := (Z.of_nat b_x0, Z.of_nat b_x1 - 1, Z.of_nat b_y0, Z.of_nat b_y1 - 1)%Z;
+  r_segment_area := Z.of_nat (length L);
+  r_area := o_area Sd;
+  r_moments := b_moments;
+  r_cutout_centroid := b_ccen;
+  r_centroid := b_cen;
+  r_covariance := b_cov;
+  r_cov_den := b_covden;
+  r_cov_margin_ok := b_margin;
+  r_flux := b_flux;
+  r_fluxerr2 := b_fluxerr2;
+  r_min := option_map snd b_argmin;
+  r_max := option_map snd b_argmax;
+  r_cminidx := option_map (fun a => o_rel (fst a)) b_argmin;
+  r_cmaxidx := option_map (fun a => o_rel (fst a)) b_argmax;
+  r_minidx := option_map o_add (option_map (fun a => o_rel (fst a)) b_argmin);
+  r_maxidx := option_map o_add (option_map (fun a => o_rel (fst a)) b_argmax);
+  r_bkg_sum := b_bkgsum;
+  r_bkg_mean := b_bkgmean |}.
+End Build.
+
+(* the row of label [l]: [own] = the catalog's arrays, [det] = the arrays the delegated
+   (detection catalog) quantities are read from *)
+Definition def_row (ny nx : nat) (own det : inputs) (l : Z) : row :=
+  let Ld := lab_pixels ny nx det l in
+  let Lo := lab_pixels ny nx own l in
+  build l ny nx Ld (g_S Ld (dataat det) (maskat det)) (g_mv (convat det) (maskat det))
+        (g_S Lo (dataat own) (maskat own)) (minl ny (map fst Lo)) (minl nx (map snd Lo))
+        (dataat own) (errat own) (bkgat own) (has_err own) (has_bkg own).
+
+(* ------------------------------------------------------------------ *)
+(* 3. the code-mirroring model computes the definition                 *)
+(* ------------------------------------------------------------------ *)
+Section ModelIsDef.
+Variables (ny nx : nat) (I : inputs) (l : Z).
+
+Lemma lab_in p :
+  In p (lab_pixels ny nx I l) <-> fst p < ny /\ snd p < nx /\ haslab I l p = true.
+Proof.
+  unfold lab_pixels, grid. rewrite filter_In, in_coords_box. intuition lia.
+Qed.
+
+Lemma lab_bounds p : In p (lab_pixels ny nx I l) ->
+  by0 ny nx I l <= fst p < by1 ny nx I l /\ bx0 ny nx I l <= snd p < bx1 ny nx I l.
+Proof.
+  intros Hp. unfold by0, by1, bx0, bx1, bbox.
+  assert (H1 := minl_le ny (map fst (lab_pixels ny nx I l)) (fst p) (in_map fst _ _ Hp)).
+  assert (H2 := minl_le nx (map snd (lab_pixels ny nx I l)) (snd p) (in_map snd _ _ Hp)).
+  assert (H3 := maxl_ge (map S (map fst (lab_pixels ny nx I l))) (S (fst p)) (in_map S _ _ (in_map fst _ _ Hp))).
+  assert (H4 := maxl_ge (map S (map snd (lab_pixels ny nx I l))) (S (snd p)) (in_map S _ _ (in_map snd _ _ Hp))).
+  lia.
+Qed.
+
+Lemma box_in_grid : by1 ny nx I l <= ny /\ bx1 ny nx I l <= nx.
+Proof.
+  unfold by1, bx1, bbox. split; apply maxl_bound; intros y Hy;
+    apply in_map_iff in Hy; destruct Hy as (y' & <- & Hy);
+    apply in_map_iff in Hy; destruct Hy as (p & <- & Hp); apply lab_in in Hp; lia.
+Qed.
+
+Lemma cut_in_grid p : In p (cut ny nx I l) -> fst p < ny /\ snd p < nx.
+Proof.
+  unfold cut. rewrite in_coords_box. destruct box_in_grid. lia.
+Qed.
+
+(* the cutout contains every pixel of the label, in the row-major order of the image *)
+Lemma cut_filter (f : pix -> bool) :
+  (forall p, f p = true -> haslab I l p = true) ->
+  filter f (cut ny nx I l) = filter f (grid ny nx).
+Proof.
+  intros Hf.
+  set (f' := fun p : pix => f p && (fst p <? ny) && (snd p <? nx)).
+  assert (E1 : filter f (cut ny nx I l) = filter f' (cut ny nx I l)).
+  { apply filter_ext_in. intros p Hp. apply cut_in_grid in Hp. unfold f'.
+    destruct Hp as [Hy Hx]. apply Nat.ltb_lt in Hy, Hx. rewrite Hy, Hx, !andb_true_r. reflexivity. }
+  assert (E2 : filter f (grid ny nx) = filter f' (grid ny nx)).
+  { apply filter_ext_in. intros p Hp. unfold grid in Hp. apply in_coords_box in Hp. unfold f'.
+    destruct Hp as [Hy Hx]. assert (Hy' : fst p < ny) by lia. assert (Hx' : snd p < nx) by lia.
+    apply Nat.ltb_lt in Hy', Hx'. rewrite Hy', Hx', !andb_true_r. reflexivity. }
+  rewrite E1, E2.
+  assert (Hin : forall p, f' p = true -> In p (lab_pixels ny nx I l)).
+  { intros p Hp. unfold f' in Hp. apply andb_true_iff in Hp. destruct Hp as [Hp Hx].
+    apply andb_true_iff in Hp. destruct Hp as [Hp Hy]. apply Nat.ltb_lt in Hx, Hy.
+    apply lab_in. auto. }
+  destruct (lab_pixels ny nx I l) as [|q L'] eqn:EL.
+  - rewrite !filter_nil_all; [reflexivity| |].
+    + intros p _. destruct (f' p) eqn:E; [|reflexivity]. destruct (Hin p E).
+    + intros p _. destruct (f' p) eqn:E; [|reflexivity]. destruct (Hin p E).
+  - assert (Hq : In q (lab_pixels ny nx I l)) by (rewrite EL; left; reflexivity).
+    apply lab_bounds in Hq. destruct box_in_grid as [Hy1 Hx1].
+    unfold grid, cut. symmetry. apply filter_box_restrict; try lia.
+    intros p Hp. apply lab_bounds. rewrite EL. apply Hin. exact Hp.
+Qed.
+
+Lemma label_cut : filter (haslab I l) (cut ny nx I l) = lab_pixels ny nx I l.
+Proof. unfold lab_pixels. apply cut_filter. auto. Qed.
+
+Lemma unmasked_eq :
+  unmasked ny nx I l = g_S (lab_pixels ny nx I l) (dataat I) (maskat I).
+Proof.
+  unfold unmasked, g_S, lab_pixels. rewrite filter_filter, cut_filter.
+  - apply filter_ext. intros p. unfold totalmask, segmask, datamask, g_good.
+    destruct (haslab I l p), (nonfinite (dataat I p)), (maskat I p); reflexivity.
+  - intros p. unfold totalmask, segmask. destruct (haslab I l p); [reflexivity|]. cbn. discriminate.
+Qed.
+
+Lemma moment_eq a b :
+  moment ny nx I l a b =
+  b_moment ny nx (lab_pixels ny nx I l) (g_mv (convat I) (maskat I)) a b.
+Proof.
+  unfold moment, b_moment.
+  rewrite (zsum_map_filter_zero _ (haslab I l)).
+  - rewrite label_cut. f_equal. apply map_ext_in. intros p Hp. apply lab_in in Hp.
+    destruct Hp as (_ & _ & Hl). unfold mval, g_mv, segmask. rewrite Hl. cbn [negb].
+    destruct (convat I p) as [v|]; [rewrite orb_false_r|]; reflexivity.
+  - intros p _ Hl. unfold mval, segmask. rewrite Hl. cbn [negb].
+    destruct (convat I p) as [v|]; [|ring]. rewrite orb_true_r. cbn [orb]. ring.
+Qed.
+
+Lemma f_area : area ny nx I l = o_area (g_S (lab_pixels ny nx I l) (dataat I) (maskat I)).
+Proof. unfold area, all_masked. rewrite unmasked_eq. reflexivity. Qed.
+
+Lemma f_segarea : segment_area ny nx I l = Z.of_nat (length (lab_pixels ny nx I l)).
+Proof. unfold segment_area. rewrite label_cut. reflexivity. Qed.
+End ModelIsDef.
+
+Theorem mkrow_is_build ny nx own det l : mkrow ny nx own det l = def_row ny nx own det l.
+Proof.
+  unfold mkrow, def_row, build.
+  f_equal.
+  - apply f_segarea.
+  - apply f_area.
+  - unfold moments, b_moments. cbn [map]. rewrite !moment_eq. reflexivity.
+  - unfold cutout_centroid, b_ccen, m00, b_m00. rewrite !moment_eq. reflexivity.
+  - unfold centroid, b_cen, cutout_centroid, b_ccen, m00, b_m00. rewrite !moment_eq. reflexivity.
+  - unfold covariance, b_cov, cov_num, b_covnum, m00, b_m00. rewrite !moment_eq. reflexivity.
+  - unfold cov_den, b_covden, m00, b_m00. rewrite !moment_eq. reflexivity.
+  - unfold cov_margin_ok, b_margin, cov_num, b_covnum, m00, b_m00. rewrite !moment_eq. reflexivity.
+  - unfold segment_flux, b_flux, all_masked, data_values. rewrite unmasked_eq.
+    destruct (isnil _); [reflexivity|]. f_equal. ring.
+  - unfold segment_fluxerr2, b_fluxerr2, all_masked. rewrite unmasked_eq. reflexivity.
+  - unfold min_value, argmin, tagged. rewrite unmasked_eq. reflexivity.
+  - unfold max_value, argmax, tagged. rewrite unmasked_eq. reflexivity.
+  - unfold cutout_minval_index, argmin, tagged. rewrite unmasked_eq. reflexivity.
+  - unfold cutout_maxval_index, argmax, tagged. rewrite unmasked_eq. reflexivity.
+  - unfold minval_index, cutout_minval_index, argmin, tagged. rewrite unmasked_eq. reflexivity.
+  - unfold maxval_index, cutout_maxval_index, argmax, tagged. rewrite unmasked_eq. reflexivity.
+  - unfold background_sum, b_bkgsum, all_masked. rewrite unmasked_eq. reflexivity.
+  - unfold background_mean, b_bkgmean, background_sum, b_bkgsum, all_masked. rewrite unmasked_eq. reflexivity.
+Qed.
